@@ -12,10 +12,12 @@ import (
 	"path/filepath"
 	"runtime"
 	"runtime/debug"
+	"runtime/pprof"
 	"sort"
 	"strconv"
 	"strings"
 	"sync"
+	"syscall"
 	"time"
 )
 
@@ -52,6 +54,7 @@ type Ctx struct {
 	ReplayRaw json.RawMessage
 	Deadline  time.Time // soft deadline for capped searches
 
+	crumb   []byte // MAP_SHARED breadcrumb: the case being executed, survives a fatal crash
 	mu      sync.Mutex
 	P       Partial
 	caseIdx int64
@@ -71,6 +74,52 @@ func NewCtx(prop, tier string, seed int64, shard, nshards int) *Ctx {
 }
 
 func (c *Ctx) Thorough() bool { return c.Tier == "thorough" }
+
+// Crumb records the case about to be executed in a file-backed shared mapping, so that the
+// parent can attribute a fatal crash of this worker (unrecoverable fault, stack overflow,
+// out of memory) to the exact case.
+func (c *Ctx) Crumb(parts ...[]byte) {
+	if c.crumb == nil {
+		return
+	}
+	n := 4
+	for _, p := range parts {
+		if n+len(p) > len(c.crumb) {
+			break
+		}
+		n += copy(c.crumb[n:], p)
+	}
+	n -= 4
+	c.crumb[0], c.crumb[1], c.crumb[2], c.crumb[3] = byte(n), byte(n>>8), byte(n>>16), byte(n>>24)
+}
+
+func (c *Ctx) openCrumb(path string) {
+	f, err := os.OpenFile(path, os.O_RDWR|os.O_CREATE|os.O_TRUNC, 0o644)
+	if err != nil {
+		return
+	}
+	defer f.Close()
+	const size = 1 << 20
+	if f.Truncate(size) != nil {
+		return
+	}
+	m, err := syscall.Mmap(int(f.Fd()), 0, size, syscall.PROT_READ|syscall.PROT_WRITE, syscall.MAP_SHARED)
+	if err == nil {
+		c.crumb = m
+	}
+}
+
+func readCrumb(path string) []byte {
+	raw, err := os.ReadFile(path)
+	if err != nil || len(raw) < 4 {
+		return nil
+	}
+	n := int(raw[0]) | int(raw[1])<<8 | int(raw[2])<<16 | int(raw[3])<<24
+	if n <= 0 || 4+n > len(raw) {
+		return nil
+	}
+	return raw[4 : 4+n]
+}
 
 // Mine tells whether the idx-th unit of work belongs to this shard.
 func (c *Ctx) Mine(idx int64) bool {
@@ -191,6 +240,13 @@ type Driver struct {
 	// Finalize lets the parent add level-specific keys to coverage after merging.
 	Finalize func(cov map[string]interface{}, p *Partial)
 	Shards   func(tier string) int // default: NumCPU
+	// Alt lists further build flavours (noasm, sched, race) whose binaries run the same
+	// driver over the same shards; the binary path comes from env VERIF_BIN_<FLAVOUR>.
+	Alt []string
+	// Post runs in the parent after merging; it may report findings or machinery errors.
+	Post func(c *Ctx)
+	// Crash turns the breadcrumb of a worker that died into a finding (nil: machinery error).
+	Crash func(crumb []byte, stderrTail string) *Finding
 }
 
 var drivers = map[string]*Driver{}
@@ -237,7 +293,14 @@ func Main(flavour string) {
 		if s := envInt("VERIF_DEADLINE_S", 0); s > 0 {
 			c.Deadline = time.Now().Add(time.Duration(s) * time.Second)
 		}
+		c.openCrumb(os.Getenv("VERIF_PARTIAL") + ".crumb")
+		if pf := os.Getenv("VERIF_CPUPROFILE"); pf != "" {
+			f, _ := os.Create(pf)
+			pprof.StartCPUProfile(f)
+			defer pprof.StopCPUProfile()
+		}
 		d.Run(c)
+		c.Crumb() // clear
 		raw, _ := json.Marshal(&c.P)
 		if err := os.WriteFile(os.Getenv("VERIF_PARTIAL"), raw, 0o644); err != nil {
 			fmt.Fprintln(os.Stderr, err)
@@ -311,29 +374,54 @@ func parentMain(d *Driver, flavour, tier string, seed int64) int {
 		err  error
 		tail string
 	}
-	ch := make(chan res, n)
-	for i := 0; i < n; i++ {
-		go func(i int) {
-			cmd := exec.Command(os.Args[0], d.Prop)
-			cmd.Env = append(os.Environ(),
-				fmt.Sprintf("VERIF_SHARD=%d/%d", i, n),
-				"VERIF_PARTIAL="+filepath.Join(tmp, fmt.Sprintf("p%d.json", i)),
-				"VERIF_TIER="+tier,
-				"GOMAXPROCS=2",
-			)
-			out, err := cmd.CombinedOutput()
-			t := string(out)
-			if len(t) > 4000 {
-				t = t[len(t)-4000:]
-			}
-			ch <- res{i, err, t}
-		}(i)
+	bins := []string{os.Args[0]}
+	for _, a := range d.Alt {
+		b := os.Getenv("VERIF_BIN_" + strings.ToUpper(a))
+		if b == "" {
+			fmt.Fprintf(os.Stderr, "flavour %s binary not provided (VERIF_BIN_%s)\n", a, strings.ToUpper(a))
+			return 2
+		}
+		bins = append(bins, b)
+	}
+	total := n * len(bins)
+	ch := make(chan res, total)
+	sem := make(chan struct{}, runtime.NumCPU())
+	for bi, bin := range bins {
+		for i := 0; i < n; i++ {
+			go func(bi int, bin string, i int) {
+				sem <- struct{}{}
+				defer func() { <-sem }()
+				id := bi*n + i
+				cmd := exec.Command(bin, d.Prop)
+				cmd.Env = append(os.Environ(),
+					fmt.Sprintf("VERIF_SHARD=%d/%d", i, n),
+					"VERIF_PARTIAL="+filepath.Join(tmp, fmt.Sprintf("p%d.json", id)),
+					"VERIF_TIER="+tier,
+					"GOMAXPROCS=2",
+				)
+				out, err := cmd.CombinedOutput()
+				t := string(out)
+				if len(t) > 4000 {
+					t = t[len(t)-4000:]
+				}
+				ch <- res{id, err, t}
+			}(bi, bin, i)
+		}
 	}
 	merged := NewCtx(d.Prop, tier, seed, 0, 1)
 	bad := 0
-	for k := 0; k < n; k++ {
+	for k := 0; k < total; k++ {
 		r := <-ch
 		if r.err != nil {
+			crumb := readCrumb(filepath.Join(tmp, fmt.Sprintf("p%d.json.crumb", r.i)))
+			if crumb != nil && d.Crash != nil {
+				if f := d.Crash(crumb, r.tail); f != nil {
+					merged.Report(f)
+					merged.Flag("exhaustive", false)
+					merged.P.Counters["workers_crashed"]++
+					continue
+				}
+			}
 			fmt.Fprintf(os.Stderr, "worker %d failed: %v\n%s\n", r.i, r.err, r.tail)
 			bad++
 			continue
@@ -358,6 +446,9 @@ func parentMain(d *Driver, flavour, tier string, seed int64) int {
 	if bad > 0 {
 		fmt.Fprintf(os.Stderr, "%d worker(s) failed: machinery error\n", bad)
 		return 2
+	}
+	if d.Post != nil {
+		d.Post(merged)
 	}
 	return finish(d, merged, flavour, time.Since(start))
 }
